@@ -55,7 +55,6 @@ PROPS = {
         "assumptions": ["node paths and keys are ASCII in the generated cases"],
     },
     "C08": {
-        "claimed": False,
         "lean_props": ["ZarrsModel.Props.C08"],
         "harness": "c08",
         "rule": "random operation sequences (4..30 ops; thorough: up to 200) over a hierarchy-shaped universe of 12 keys / 9 prefixes with values of 0..12 bytes and "
